@@ -44,7 +44,8 @@ Record decoded_picture := mkDecoded {
   d_chroma_w : Z
 }.
 
-(* DecodedPicture::new: ceil(w/2) via f32 -- exact for every u16 *)
+(* DecodedPicture::new: ceil(w/2) via f32 -- exact for every u16: proved in bridge/BridgeKPicture.v (half_exact) about the
+   sizes translated from the source (gen/GenKPicture.v) *)
 Definition new_decoded (hdr : picture) (fmt : source_format) : option decoded_picture :=
   match into_width_and_height fmt with
   | None => None
